@@ -26,6 +26,9 @@
     `validHost_alabel_example`  the idna codec (punycode, ToASCII/ToUnicode, Codec.decode) inside the model: nameprep is the only
                               parameter left and is asked only about the punycode-decoded `xn--` labels; an IDN name is valid outright
                               given one nameprep fact
+  * `nameprep_bucher`, `validHost_alabel_outright`, `validHostFull_closed_form`, `sni_full`
+                              nameprep (map, NFKC of ucd_3_2_0, prohibit, bidi) inside the model on tables regenerated from the interpreter:
+                              `validHostFull` has no parameter; an IDN name is valid outright
   * `record_any_size_accepted`, `record_header_prefix_incomplete`
                               records of every length 1…65535 are read (no 2^14 bound in the code; examples at 16384, 16385, 65535);
                               a header announcing any such length with too few bytes after it is incomplete, never invalid
@@ -35,8 +38,9 @@
 -/
 import MitmVerif.Model.C13
 import MitmVerif.Model.C13_Idna
+import MitmVerif.Model.C13_Nameprep
 namespace MitmVerif.Props.C13
-open MitmVerif MitmVerif.C13 MitmVerif.C13.Build MitmVerif.C13.Idna
+open MitmVerif MitmVerif.C13 MitmVerif.C13.Build MitmVerif.C13.Idna MitmVerif.C13.Np
 
 private theorem getD_append_left (l q : Bytes) (i : Nat) (h : i < l.length) :
     (l ++ q).getD i 0 = l.getD i 0 := by
@@ -1269,6 +1273,49 @@ example (N : Nameprep) : validHostN N [0x78, 0x6e, 0x2d, 0x2d, 0x5f] = false := 
       have hd : punyDecode (List.drop 4 (List.map UInt8.toNat [0x78, 0x6e, 0x2d, 0x2d, 0x5f])) = none := by decide
       rw [hd] at hp; cases hp
   rw [this]; decide
+
+
+
+/-! ## nameprep inside the model: `is_valid_host` with no parameter left -/
+
+set_option maxRecDepth 100000 in
+/-- the one Unicode fact `validHost_alabel_example` asked for, now computed from the regenerated tables -/
+theorem nameprep_bucher : theNameprep.prep bucher = some bucher := by
+  decide +kernel
+
+/-- **validHost_alabel_outright** — `b"xn--bcher-kva.example"` is a valid host: no hypothesis, no parameter
+    (record of what is computed: split, ACE prefix, punycode decode, nameprep = map + NFKC + prohibit + bidi on the
+    interpreter's tables, punycode re-encode, round-trip comparison, label regex, length rules) -/
+theorem validHost_alabel_outright : validHostFull nmBucher = true := by
+  unfold validHostFull
+  exact validHost_alabel_example theNameprep nameprep_bucher
+
+/-- **validHostFull_closed_form** — for names without `xn--` the complete model is the closed expression -/
+theorem validHostFull_closed_form (nm : Bytes) (hace : isInfix acePrefix nm = false) :
+    validHostFull nm =
+      (nm.all (fun b => decide (b.toNat < 128)) && decide (nm.length ≤ 255) &&
+        ((splitDot (stripDot nm)).all labelValid ||
+          ((stripDot nm).all (fun b => decide (b.toNat < 128)) && (C22.parseIp (stripDot nm)).isSome))) :=
+  validHostT_closed_form _ nm hace
+
+/-- **sni_full** — `ClientHello.sni` of any parsed hello, computed with no library answer, agrees with the computation
+    under ANY idna library as long as no host_name candidate contains `xn--` (and for those that do, the model computes
+    the idna codec and nameprep itself: `validHostFull`) -/
+theorem sni_full (I : IdnaLib) (h : Hello) (hc : ∀ nm ∈ h.sniCandidates, isInfix acePrefix nm = false) :
+    h.sni validHostFull = h.sni (validHostT I) :=
+  sni_lib_free _ I h hc
+
+set_option maxRecDepth 100000 in
+/-- NFKC as the interpreter computes it: Hangul jamo compose, A + ring composes, ß folds to ss, U+0080 is prohibited,
+    a mixed RTL/LTR label violates the bidi rule -/
+example : nfkc [0x1100, 0x1161, 0x11A8] = [0xAC01] ∧ nfkc [0x41, 0x30a] = [0xC5] ∧
+    nameprep [0xdf] = some [0x73, 0x73] ∧ nameprep [0x80] = none ∧ nameprep [0x5d0, 0x61] = none ∧
+    nameprep [0x5d0, 0x5d1] = some [0x5d0, 0x5d1] := by decide +kernel
+
+set_option maxRecDepth 100000 in
+/-- IDN names outright: "中国" (xn--fiqs8s) is valid; xn--a (decodes to U+0080, prohibited) is not -/
+example : validHostFull [0x78, 0x6e, 0x2d, 0x2d, 0x66, 0x69, 0x71, 0x73, 0x38, 0x73] = true ∧
+    validHostFull [0x78, 0x6e, 0x2d, 0x2d, 0x61] = false := by decide +kernel
 
 
 /-! ## record sizes: the code has NO bound below the length field's own maximum -/
